@@ -15,11 +15,11 @@ CONSTANTS
   PrefRest = "t1"
   Stamps = {5, 999}
   MaxNow = 2
-  Shapes = {"ok", "okq", "short", "nodata"}
+  Shapes = {"ok", "okq", "short"}
   LevelKinds = {"node", "module", "param"}
   Kinds = {"updateEvent", "updateItem"}
   Behs = {"ok", "oneshot", "raise"}
-  ErrBehs = {"ok", "raise"}
+  ErrBehs = {"raise"}
   InitDescs <- StdInit
   Descs <- StdDescs
   MaxCbs = 3
